@@ -612,9 +612,16 @@ func (env *Env) elabQuant(x *EQuant) SV {
 	// with the absolute array index j = off(s)+k+c as the bound variable, so that the pattern
 	// (select (select A arr) j) contains no arithmetic and matches every read of that backing array.
 	if len(x.Pats) == 1 && len(x.Pats[0]) == 1 {
-		if ix, ok := x.Pats[0][0].(*EIndex); ok {
+		pat := x.Pats[0][0]
+		nn := n
+		if o, isOld := pat.(*EOld); isOld {
+			// old(s[k]): the slice is the one of the pre-state
+			pat = o.X
+			nn = n.withState(n.old)
+		}
+		if ix, ok := pat.(*EIndex); ok {
 			if kname, cexpr, ok2 := splitIndex(ix.I, n.vars, x.Vars); ok2 {
-				sv := n.elab(ix.X)
+				sv := nn.elab(ix.X)
 				if sv.sort == "Slice" && !strings.Contains(sv.t, n.vars[kname].t) {
 					c := "0"
 					if cexpr != nil {
